@@ -328,7 +328,8 @@ def check_formats_concrete(chk, ix):
                     problems.append("prints %s for %s (summary: %d)" % (n, name, summ[name]))
                 if name in ("scenario", "scenarios") and int(n) != total:
                     problems.append("prints the total %s (summary: %d)" % (n, total))
-            for name in ("passed", "failed"):
+            # conservation: a status with a non-zero count is never left out of the line
+            for name in sorted(summ):
                 if summ.get(name) and not _re.search(r"\b%d (?:scenarios? )?%s\b|\b%s: %d\b" % (summ[name], name, name, summ[name]), text):
                     problems.append("does not print the %d %s" % (summ[name], name))
             if not problems:
